@@ -28,6 +28,15 @@ def run(ctx):
             lo = x - rng.uniform(0, 0.5, size=n) * (rng.random(size=n) < 0.7)      # some coordinates ON the boundary
             hi = x + rng.uniform(0, 0.5, size=n) * (rng.random(size=n) < 0.7)
             hi = np.where(hi == lo, lo + 0.1, hi)
+            if k % 2:
+                # half-open boxes: some sides infinite, the others finite (with x possibly ON a finite side): the finite sides still bind
+                lo = np.where(rng.random(size=n) < 0.5, -np.inf, lo)
+                hi = np.where(rng.random(size=n) < 0.5, np.inf, hi)
+                j = int(rng.integers(0, n))
+                if k % 4 == 1:
+                    lo[j], hi[j] = x[j], np.inf            # on the finite lower side of a box open above
+                else:
+                    lo[j], hi[j] = -np.inf, x[j]
             kw['bounds'] = (lo, hi)
             if method == 'complex':
                 method = 'central'
